@@ -19,7 +19,94 @@ CASE_TIMEOUT = 10.0
 
 DOLLAR_ATOMS = ['$', 'a', '{', '}', ' ', '\\(', '\\)', '\\[', '\\]']
 
+CLOSE = {'$': '$', '$$': '$$', '\\(': '\\)', '\\[': '\\]'}
+
+def gen_math_items(rng, depth, in_math, budget, cur=None):
+    """nested formulas with known structure: items are ('T', letters) | ('G', items) | ('F', delim, items) | ('X', items) (\\text{..})"""
+    n = rng.randint(1, 3)
+    items = []
+    for _ in range(n):
+        r = rng.random()
+        if depth >= 4 or budget <= 0 or r < 0.3:
+            items.append(('T', ''.join(rng.choice('abxy') for _ in range(rng.randint(1, 2)))))
+        elif r < 0.5:
+            items.append(('G', gen_math_items(rng, depth + 1, in_math, budget - 1, cur)))
+        elif r < 0.62 and in_math:
+            items.append(('X', gen_math_items(rng, depth + 1, False, budget - 1, None)))
+        else:
+            # inside math opened by `$` a dollar closes it (also `$$`, which reads as `$` `$`); inside `$$` a `$$` closes it
+            allowed = ['$', '$', '$', '$$', '\\(', '\\[']
+            if in_math and cur == '$': allowed = ['\\(', '\\[']
+            elif in_math and cur == '$$': allowed = ['$', '$', '\\(', '\\[']
+            d = rng.choice(allowed)
+            items.append(('F', d, gen_math_items(rng, depth + 1, True, budget - 1, d)))
+    # keep the source unambiguous under the documented rule: a formula is not the first or last item of a formula body,
+    # and a formula that is a direct item of a math-mode list is separated by text on both sides
+    out = []
+    for i, it in enumerate(items):
+        if it[0] == 'F' and in_math:
+            if not out or out[-1][0] != 'T':
+                out.append(('T', 'u'))
+            out.append(it)
+            out.append(('T', 'v'))
+        else:
+            out.append(it)
+    return out
+
+def fix_body(items):
+    if not items or items[0][0] == 'F':
+        items = [('T', 'p')] + items
+    if items[-1][0] == 'F':
+        items = items + [('T', 'q')]
+    return items
+
+def unparse_math(items):
+    s = ''
+    for it in items:
+        if it[0] == 'T': s += it[1]
+        elif it[0] == 'G': s += '{' + unparse_math(it[1]) + '}'
+        elif it[0] == 'X': s += '\\text{' + unparse_math(it[1]) + '}'
+        else: s += it[1] + unparse_math(fix_body(it[2])) + CLOSE[it[1]]
+    return s
+
+def expected_math(items, mode, out):
+    """document-order list of ('c', text, mode) / ('f', display, open, close, mode)"""
+    for it in items:
+        if it[0] == 'T': out.append(('c', it[1], mode))
+        elif it[0] == 'G': expected_math(it[1], mode, out)
+        elif it[0] == 'X': expected_math(it[1], (False, None), out)
+        else:
+            out.append(('f', it[1] in ('$$', '\\['), it[1], CLOSE[it[1]], mode))
+            expected_math(fix_body(it[2]), (True, it[1]), out)
+    return out
+
+def observed_math(nodes, out):
+    from pylatexenc.latexnodes import nodes as N
+    for n in nodes:
+        if n is None: continue
+        m = mode_of(n.parsing_state)
+        if isinstance(n, N.LatexCharsNode):
+            if out and out[-1][0] == 'c' and out[-1][2] == m: out[-1] = ('c', out[-1][1] + n.chars, m)
+            else: out.append(('c', n.chars, m))
+        elif isinstance(n, N.LatexMathNode):
+            out.append(('f', n.displaytype == 'display', n.delimiters[0], n.delimiters[1], m))
+            observed_math(n.nodelist or [], out)
+        else:
+            a, b = parseprops.children_of(n)
+            observed_math(a + b, out)
+    return out
+
+def merge_c(l):
+    out = []
+    for x in l:
+        if x[0] == 'c' and out and out[-1][0] == 'c' and out[-1][2] == x[2]: out[-1] = ('c', out[-1][1] + x[1], x[2])
+        else: out.append(x)
+    return out
+
 def cases(tier, rng):
+    for _ in range(1200 if tier == 'quick' else 40000):
+        items = gen_math_items(rng, 0, False, 4)
+        yield {'tol': False, 'ctx': 'default', 's': unparse_math(items), 'mathdoc': items}
     k = 5 if tier == 'quick' else 7
     for s in gen.exhaustive(DOLLAR_ATOMS, k):
         yield {'tol': False, 'ctx': 'default', 's': s}
@@ -117,6 +204,12 @@ def run_impl(c):
         r = check_modes(list(p), (False, None), ctx_json(c['ctx']), seen)
         if r:
             fail = {'kind': 'mode-differs-from-implied', 'detail': r}
+        if not fail and c.get('mathdoc') is not None:
+            def tup(x): return tuple(tup(y) for y in x) if isinstance(x, (list, tuple)) else x
+            exp = merge_c(expected_math(tup(c['mathdoc']), (False, None), []))
+            got = merge_c(observed_math(list(p), []))
+            if [tup(x) for x in exp] != [tup(x) for x in got]:
+                fail = {'kind': 'formula-structure-or-mode', 'detail': 'written %r ; parsed %r' % (exp, got)}
         if not fail and c.get('dollars') == 'inline2':
             ms = [n for n in p if isinstance(n, N.LatexMathNode)]
             if not (len(p) == 2 and len(ms) == 2 and all(m.displaytype == 'inline' for m in ms)):
@@ -124,11 +217,17 @@ def run_impl(c):
         if not fail and c.get('dollars') == 'display1':
             if not (len(p) == 1 and isinstance(p[0], N.LatexMathNode) and p[0].displaytype == 'display'):
                 fail = {'kind': 'dollar-run-split', 'detail': '%r parsed as %s' % (c['s'], out[:200])}
+    elif c.get('mathdoc') is not None:
+        fail = {'kind': 'formula-structure-or-mode', 'detail': 'well-formed nested formulas did not parse: %s' % out[:200]}
     elif c.get('dollars'):
         fail = {'kind': 'dollar-run-split', 'detail': '%r did not parse: %s' % (c['s'], out[:200])}
     return {'out': out, 'fail': fail, 'sig': ('T:' if c['tol'] else 'S:') + ','.join(sorted(seen)) if kind == 'ok' else 'err'}
 
-shrink_candidates = parseprops.shrink_parse_case
+def shrink_candidates(c):
+    if c.get('mathdoc') is not None or c.get('dollars'):
+        return
+    for d in parseprops.shrink_parse_case(c):
+        yield d
 
 LEVEL_TEXT = ('Theorems about the parser model, both modes, every context/input/start state/fuel: C10_modes — the returned tree is mode-consistent: '
               'every node records the mode handed down by its parent, where a math node hands {math, its opening delimiter} to its body, an argument '
